@@ -3,6 +3,7 @@ import Proofs.ZoneTxnValue
 import Proofs.ZoneTxnShipped
 import Proofs.ZoneTxnFlatten
 import Proofs.ZoneTxnBTree
+import Proofs.ZoneTxnCow
 /-!
 # C10 — Zone transactions match a reference model and are all-or-nothing
 
@@ -300,6 +301,41 @@ example :
     let v := bPut P (bPut P v0 [[98]] ns) [[97], [98]] a
     v.delegs = [[[98]]] ∧ bContent (bDelRds P 1 v [[98]] 2 0).nodes = [([[97], [98]], [a])] ∧
       (bDelRds P 1 v [[98]] 2 0).delegs = [] := by
+  decide
+
+/-- "A transaction that is rolled back, or that exits through an exception raised at any point, leaves the zone
+exactly as it was" — with copy-on-write made explicit (`Model/ZoneCow.lean`): node objects are mutable cells of a
+store *shared* between the published zone and the version (`WritableVersion.__init__` copies only the dict);
+`_maybe_cow_with_name` copies a node the first time its name is touched and every later
+`replace_rdataset / delete_rdataset` mutates in place.  For every sequence of version operations, at every
+point: (i) what the published zone reaches is untouched (so abandoning the version at any point is a perfect
+rollback, and concurrent readers are not disturbed), and (ii) what the version holds is exactly what the
+persistent-value model of `Model/ZoneTxn.lean` holds (`pStep` is its `putRdataset / deleteRdataset / deleteNode`,
+see `plain_version_ops`) — which is what licenses modelling zones as persistent values everywhere else. -/
+theorem cow_isolation (cls : Nat) (heap : Heap) (zone : PMap) (hz : ∀ e ∈ zone, e.2 < heap.next) (ops : List COp) :
+    let v := ops.foldl (cStep cls) (cBegin heap zone)
+    (∀ k, zview v k = (pget zone k).map heap.cell) ∧
+      (∀ k, vview v k = nodesGet (ops.foldl (pStep cls) (deref heap zone)) k) := by
+  intro v
+  have hi : CowInv (cBegin heap zone) :=
+    ⟨hz, hz, fun k hk => by simp [cBegin] at hk⟩
+  have hr : Rep (cBegin heap zone) (deref heap zone) := by
+    intro k; rw [nodesGet_deref]; rfl
+  obtain ⟨_, h2, h3⟩ := cRun_spec cls ops (cBegin heap zone) (deref heap zone) hi hr
+  exact ⟨fun k => h2 k, h3⟩
+
+/-- non-vacuity, and the scenario itself: the zone's node `a` is object 0 holding an A rdataset; the version adds
+a second A record (merged rdataset put) and deletes it again; the zone still reaches the original object, unmodified,
+while the version went through a private copy (object 1) — and a `put` *without* the copy would have shown through -/
+example :
+    let a1 : Rdataset := { rdclass := 1, rdtype := 1, covers := 0, ttl := 300, items := [⟨1, 1, 0, 1⟩] }
+    let a12 : Rdataset := { a1 with items := [⟨1, 1, 0, 1⟩, ⟨1, 1, 0, 2⟩] }
+    let heap : Heap := { cell := fun i => if i = 0 then [a1] else [], next := 1 }
+    let zone : PMap := [([[97]], 0)]
+    let v := cPut (cBegin heap zone) [[97]] a12
+    zview v [[97]] = some [a1] ∧ vview v [[97]] = some [a12] ∧ pget v.nodes [[97]] = some 1 ∧
+      (∀ e ∈ zone, e.2 < heap.next) ∧
+      zview ({ (cBegin heap zone) with heap := heap.set 0 [a12] }) [[97]] = some [a12] := by
   decide
 
 /-! ## owner names relative or absolute -/
